@@ -213,6 +213,7 @@ def run(sc, garbage):
             rw = np.array(cfg["rw"], dtype=np.float64)
             rows = [(ow[0] if ow is not None else rw), (ow[1] if ow is not None else rw), (cw[0] if cw is not None else rw)]
             e["weights"] = nums(rows)
+            e["values"] = values
             failed = (fr[0] if fr else gr).realizations.failed_realizations
             if fr and gr is not None:
                 failed = failed | gr.realizations.failed_realizations
